@@ -25,6 +25,10 @@ CORE = {
         # the n-th byte and the peer's close reach the poller together while the (timed) reader is blocked: the woken reader must return the data
         'kind=read,ctor=std,calls=N3t,ev=d2.d1.h,closers=0',
         'kind=read,ctor=std,calls=N2,ev=d1.d1,closers=0',
+        # D20 (fixed): the n bytes and the hang-up arrive while the reader is RUNNING between its Len() load and its closing load / a user Close
+        # overtakes the poller's data wake-up: the call must return the data, not the close error
+        'kind=read,ctor=std,calls=N3,ev=d3.h,closers=0',
+        'kind=read,ctor=std,calls=N3t,ev=d3,closers=1',
         'kind=read,ctor=fd,calls=N2t.N1x,ev=h,closers=1',
     ],
     'C08': [
